@@ -23,6 +23,9 @@ type c07Case struct {
 
 // one connection's life: messages whose every byte is the connection's own tag; programs that
 // misuse the reader in the ways the property lists.
+// c07Tags: connection → the tag byte of every payload byte it receives (for the dictionary check in the hook).
+var c07Tags sync.Map
+
 func c07Conn(id int, tag byte, rng *rand.Rand, rounds int, leak chan<- string) {
 	for r := 0; r < rounds; r++ {
 		client := rng.Intn(2) == 0
@@ -30,6 +33,7 @@ func c07Conn(id int, tag byte, rng *rand.Rand, rounds int, leak chan<- string) {
 		a, b := newPipe()
 		copts := websocket.VerifCopts{Enabled: mode != 0, ClientNoContextTakeover: mode == 2, ServerNoContextTakeover: mode == 2}
 		c := websocket.VerifNewConn(a, client, copts, 16)
+		c07Tags.Store(c, tag)
 		peer := newRawPeer(b, !client)
 		go io.Copy(io.Discard, &peerDrain{peer})
 		takeover := mode == 1
@@ -181,6 +185,10 @@ type poolLog struct {
 	objs  map[uintptr]int
 	owner map[int]int // object → connection (the harness's own monitor)
 	bad   string
+	// dictionary ownership
+	badDict    string
+	dictChecks int
+	dictBytes  int
 }
 
 func newPoolLog() *poolLog {
@@ -207,6 +215,19 @@ func (l *poolLog) hook(c *websocket.Conn, kind string, obj uintptr) {
 		}
 		l.owner[oi] = ci
 		l.evs = append(l.evs, fmt.Sprintf("g:%d:%d", ci, oi))
+		// the dictionary handed to the inflater (the connection's sliding window, possibly fresh from the pool)
+		// must hold nothing but bytes this connection received itself (WS.Props.C07.dict_own)
+		if t, ok := c07Tags.Load(c); ok && l.badDict == "" {
+			d := websocket.VerifReadDict(c)
+			l.dictChecks++
+			l.dictBytes += len(d)
+			for i, x := range d {
+				if x != t.(byte) {
+					l.badDict = fmt.Sprintf("connection %d (tag %#x) starts a compressed message with a %d-byte dictionary whose byte %d is %#x: bytes it never received (a sliding window came back from the pool with another connection's data)", ci, t.(byte), len(d), i, x)
+					break
+				}
+			}
+		}
 	case "put-flate-reader":
 		oi, ok := l.objs[obj]
 		if !ok {
@@ -232,7 +253,7 @@ func (l *poolLog) hook(c *websocket.Conn, kind string, obj uintptr) {
 func runC07(ctx *runCtx) {
 	rep := ctx.rep
 	rep.Rule = "2..8 connections run concurrently (both roles, compression off / takeover / no takeover), every byte of every payload on connection i is the tag byte of i; per round one of: read again after end-of-message, abandon a message, peer Close frame inside a (compressed, fragmented) message, CloseNow racing a reader inside a message, context expiry inside a message, plain reads, writes with an abandoned Writer; then Close/CloseNow and a new connection that reuses the pools. " +
-		"oracle: every byte returned by any read equals the connection's own tag; the verif hook logs every inflater Get/Put/use with connection and object identity, checked by an ownership monitor in the harness and by the Lean monitor. Targeted scenarios: wsjson buffer pool after an invalid document; a connection closed while a frame write is stuck in the transport; sliding windows of closed context-takeover connections vs a new connection receiving a stream whose back-references point before its start (must fail, never return the earlier bytes). Thorough tier repeats under the race detector. distinct = (conns, rounds, seed)"
+		"oracle: every byte returned by any read equals the connection's own tag; the verif hook logs every inflater Get/Put/use with connection and object identity, checked by an ownership monitor in the harness and by the Lean monitor; at every inflater Get the hook also inspects the dictionary (the connection's sliding window, fresh or from the pool): every byte must be the connection's own tag. Targeted scenarios: wsjson buffer pool after an invalid document; a connection closed while a frame write is stuck in the transport; sliding windows of closed context-takeover connections vs a new connection receiving a stream whose back-references point before its start (must fail, never return the earlier bytes). Thorough tier repeats under the race detector. distinct = (conns, rounds, seed)"
 	rng := newRng(ctx.seed, "c07")
 	batches := 12
 	if ctx.thorough() {
@@ -279,6 +300,11 @@ func runC07(ctx *runCtx) {
 		rep.count(fmt.Sprintf("conns:%d", cc.Conns))
 		plog.mu.Lock()
 		rep.Dist["pool-events"] += len(plog.evs)
+		rep.Dist["dictionary-checks"] += plog.dictChecks
+		rep.Dist["dictionary-bytes-checked"] += plog.dictBytes
+		if plog.badDict != "" {
+			rep.violate(Violation{Kind: "property", Shape: "foreign-bytes-in-dictionary", What: plog.badDict, Replay: cc})
+		}
 		if plog.bad != "" {
 			rep.violate(Violation{Kind: "property", Shape: "pooled-inflater-used-without-ownership", What: plog.bad, Replay: cc})
 		} else if len(plog.evs) > 0 && len(plog.evs) < 40000 {
